@@ -91,7 +91,8 @@ Definition getvector (a : pyarg) (dim : option nat) (out : outspec) : res pyval 
 Definition isvector (a : pyarg) (dim : option nat) : res bool :=
   match a with
   | PyList l | PyTuple l =>          (* every element is a scalar by typing; otherwise falls to `return False` *)
-      Ok (match dim with None => true | Some d => length l =? d end)
+      Ok (match dim with None => negb (is_nil l)          (* len(v) > 0 if dim is None   (fix 2c16cfc) *)
+                       | Some d => length l =? d end)
   | Nd s l =>
       match dim with
       | Some d => Ok (shape_ok s d)
